@@ -103,6 +103,101 @@ fn frames_at_block_boundary<const LEN: usize>(left: usize) {
 	core::mem::forget(w);
 }
 
+/// reference framing of ONE record of `len` bytes starting at block offset `off`, checked against
+/// `out[pos..]`; returns (bytes consumed from out, block offset afterwards)
+fn check_one_record(out: &[u8], mut pos: usize, mut off: usize, payload: &[u8]) -> (usize, usize) {
+	let len = payload.len();
+	let left = BLOCK_SIZE - off;
+	if left < HEADER_SIZE {
+		assert!(out.len() >= pos + left, "padding missing");
+		let mut i = 0;
+		while i < left {
+			assert!(out[pos + i] == 0, "padding byte not zero");
+			i += 1;
+		}
+		pos += left;
+		off = 0;
+	}
+	let mut consumed = 0usize;
+	let mut frag_index = 0usize;
+	loop {
+		let avail = BLOCK_SIZE - off - HEADER_SIZE;
+		let want_len = if len - consumed < avail { len - consumed } else { avail };
+		let is_end = consumed + want_len == len;
+		let want_ty = if frag_index == 0 && is_end {
+			RecordType::Full
+		} else if frag_index == 0 {
+			RecordType::First
+		} else if is_end {
+			RecordType::Last
+		} else {
+			RecordType::Middle
+		};
+		assert!(out.len() >= pos + HEADER_SIZE + want_len, "frame shorter than the format requires");
+		let crc = be32(&out[pos..pos + 4]);
+		let flen = u16::from_be_bytes([out[pos + 4], out[pos + 5]]) as usize;
+		assert!(flen == want_len, "fragment length field differs from the format's rule");
+		assert!(out[pos + 6] == want_ty as u8, "fragment type differs from the format's rule");
+		let mut i = 0;
+		while i < want_len {
+			assert!(out[pos + HEADER_SIZE + i] == payload[consumed + i], "payload bytes altered");
+			i += 1;
+		}
+		assert!(crc == calculate_crc32(&[want_ty as u8], &payload[consumed..consumed + want_len]), "checksum differs from the reader's");
+		consumed += want_len;
+		pos += HEADER_SIZE + want_len;
+		off += HEADER_SIZE + want_len;
+		if is_end {
+			break;
+		}
+		assert!(off == BLOCK_SIZE, "non-final fragment does not end at the block boundary");
+		off = 0;
+		frag_index += 1;
+	}
+	(pos, off)
+}
+
+/// C12-O1b: TWO records in one session: the framing of the second depends on the block offset the writer
+/// kept after the first (any drift of that bookkeeping puts the second record out of phase with the grid).
+fn two_records_at_block_boundary<const A: usize, const B: usize>(left: usize) {
+	let pa: [u8; A] = kani::any();
+	let pb: [u8; B] = kani::any();
+	let mut w = mk_writer(BLOCK_SIZE - left);
+	let r1 = w.add_record(&pa);
+	let ok1 = r1.is_ok();
+	core::mem::forget(r1);
+	let r2 = w.add_record(&pb);
+	let ok2 = r2.is_ok();
+	core::mem::forget(r2);
+	assert!(ok1 && ok2, "add_record failed");
+	let out: &[u8] = w.dest.writer.buffer();
+	#[cfg(verif_replay)]
+	println!("REPLAY wal writer two records left={} A={} B={} -> {:?} block_offset={}", left, A, B, out, w.block_offset);
+	let (pos1, off1) = check_one_record(out, 0, BLOCK_SIZE - left, &pa);
+	let (pos2, off2) = check_one_record(out, pos1, off1, &pb);
+	assert!(pos2 == out.len(), "trailing bytes after the second record");
+	assert!(w.block_offset == off2, "writer's block_offset disagrees with the bytes written");
+	kani::cover!(pos2 > pos1, "second record written");
+	core::mem::forget(w);
+}
+
+macro_rules! wal_case2 {
+	($name:ident, $a:expr, $b:expr, $left:expr) => {
+		#[kani::proof]
+		#[kani::unwind(14)]
+		#[kani::stub(crc32fast::Hasher::internal_new_specialized, stub_crc_none)]
+		fn $name() {
+			two_records_at_block_boundary::<$a, $b>($left);
+		}
+	};
+}
+
+// first record ends 3 bytes before the block end -> second starts with padding; first record ends
+// exactly at the block end; first fragmented, second lands behind its Last fragment
+wal_case2!(c12_writer_two_records_a3_b2_left13, 3, 2, 13);
+wal_case2!(c12_writer_two_records_a3_b2_left10, 3, 2, 10);
+wal_case2!(c12_writer_two_records_a5_b1_left9, 5, 1, 9);
+
 macro_rules! wal_case {
 	($name:ident, $len:expr, $left:expr, $unwind:expr) => {
 		#[kani::proof]
